@@ -340,35 +340,6 @@ func hasAliasKey(docs []parser.VerifDoc) bool {
 	return found
 }
 
-func nodeInert(n *yaml.Node) bool {
-	if len(n.Content) != 0 {
-		return false
-	}
-	if n.Kind == yaml.ScalarNode && strings.Count(n.Value, "\n") > 1 && n.Style&yaml.LiteralStyle != 0 {
-		var e yaml.Node
-		if yaml.Unmarshal([]byte(n.Value), &e) == nil {
-			return false
-		}
-	}
-	return true
-}
-
-// hasTagKindMismatch: class predicate of the open known finding C19-tag-kind as narrowed by fix b22de24: a node whose
-// ShortTag is !!null although it is not an empty scalar: a mapping / sequence WITH content (or a scalar pint would
-// re-parse) explicitly tagged !!null.  kindMismatch exempts the !!null tag, strict mode then iterates the content
-// while relaxed mode dispatches on the kind.  (!!map / !!seq contradicting the kind are rejected by strict mode now.)
-func hasTagKindMismatch(docs []parser.VerifDoc) bool {
-	found := false
-	for _, d := range docs {
-		walkForest(d.Node, map[*yaml.Node]bool{}, func(n *yaml.Node) {
-			if n.ShortTag() == "!!null" && !nodeInert(n) {
-				found = true
-			}
-		})
-	}
-	return found
-}
-
 func strictValid(f parser.File) bool {
 	if f.Error.Err != nil {
 		return false
@@ -445,9 +416,12 @@ func corpusFiles(prop string) []string {
 // hasAliasCycle: an alias points at one of its own ancestors (`foo: &a [*a]`); yaml.v3 builds the cyclic graph.
 func hasAliasCycle(docs []parser.VerifDoc) bool {
 	found := false
+	// depth-first search with the usual three colours: a node that has been left (done) is never entered again, so
+	// alias-doubling documents (exponential unfolding) cost one visit per node of the GRAPH
+	done := map[*yaml.Node]bool{}
 	var visit func(n *yaml.Node, stack map[*yaml.Node]bool, depth int)
 	visit = func(n *yaml.Node, stack map[*yaml.Node]bool, depth int) {
-		if n == nil || found || depth > 2000 {
+		if n == nil || found || depth > 2000 || done[n] {
 			return
 		}
 		if stack[n] {
@@ -462,6 +436,7 @@ func hasAliasCycle(docs []parser.VerifDoc) bool {
 			visit(n.Alias, stack, depth+1)
 		}
 		delete(stack, n)
+		done[n] = true
 	}
 	for _, d := range docs {
 		visit(d.Node, map[*yaml.Node]bool{}, 0)
